@@ -4,21 +4,21 @@ From TS Require Import Model.Str Model.Syntax Model.Attrs Model.TargetOs Spec.Ta
 From TS Require Proofs.C13.
 From TS Require Props.C13.
 
-Check (Props.C13.C13_accept_is_documented_rule :
-  forall (attrs : list attr) (T : list str),
-    cfg_parsable attrs = true -> accept_target_os attrs T = Some (os_rule attrs T)).
+Goal forall (attrs : list attr) (T : list str),
+    cfg_parsable attrs = true -> accept_target_os attrs T = Some (os_rule attrs T).
+Proof. exact Props.C13.C13_accept_is_documented_rule. Qed.
 Print Assumptions Props.C13.C13_accept_is_documented_rule.
-Check (Props.C13.C13_iterator_yields_spec_names :
-  forall (m : meta), meta_parsable m = true ->
-    exists r, target_os_iter m = Some r /\ Permutation r (os_names false m)).
+Goal forall (m : meta), meta_parsable m = true ->
+    exists r, target_os_iter m = Some r /\ Permutation r (os_names false m).
+Proof. exact Props.C13.C13_iterator_yields_spec_names. Qed.
 Print Assumptions Props.C13.C13_iterator_yields_spec_names.
-Check (Props.C13.C13_no_target_list_filters_nothing :
-  forall (attrs : list attr), accept_target_os attrs [] = Some true).
+Goal forall (attrs : list attr), accept_target_os attrs [] = Some true.
+Proof. exact Props.C13.C13_no_target_list_filters_nothing. Qed.
 Print Assumptions Props.C13.C13_no_target_list_filters_nothing.
-Check (Props.C13.C13_items_naming_no_os_are_kept :
-  forall (attrs : list attr) (T : list str),
-    cfg_parsable attrs = true -> attrs_os_names attrs = [] -> accept_target_os attrs T = Some true).
+Goal forall (attrs : list attr) (T : list str),
+    cfg_parsable attrs = true -> attrs_os_names attrs = [] -> accept_target_os attrs T = Some true.
+Proof. exact Props.C13.C13_items_naming_no_os_are_kept. Qed.
 Print Assumptions Props.C13.C13_items_naming_no_os_are_kept.
-Check (Props.C13.C13_decision_total :
-  forall (attrs : list attr) (T : list str), exists b, accept_target_os attrs T = Some b).
+Goal forall (attrs : list attr) (T : list str), exists b, accept_target_os attrs T = Some b.
+Proof. exact Props.C13.C13_decision_total. Qed.
 Print Assumptions Props.C13.C13_decision_total.
